@@ -1167,12 +1167,14 @@ FACETS = {
     },
     "gates_2qutrit_two": {
         "kind": "enumeration", "items": qutrit2_two_items, "check": check_gate_2qutrit,
+        "exhaustive": lambda tier: tier == "thorough",  # quick tier: seeded sample of 400 of the 39006 two-term names
         "budget": {"quick": {"examples": 0, "shards": 6}, "thorough": {"examples": 0, "shards": 32}},
         "nontrivial": "two-term name whose Hamiltonian terms do not commute (exp(-iH) is not a product of the single-term gates)",
         "min_nontrivial": 100,
     },
     "lindbladians": {
         "kind": "enumeration", "items": lindbladian_items, "check": check_lindbladian,
+        "exhaustive": False,  # small gates completely, 2-qutrit names sampled in both tiers
         "budget": {"quick": {"examples": 0, "shards": 6}, "thorough": {"examples": 0, "shards": 16}},
         "nontrivial": "non-identity gate name (non-zero Hamiltonian)",
         "min_nontrivial": 100,
